@@ -96,7 +96,7 @@ class C20(PropertyCheck):
                         cases.append({"kind": "probe", "probe": name, "n": n, "layout": layout,
                                       "seed": rng.randrange(10 ** 6) if seed else 1})
         # delegate stream
-        per = 40 if quick else 400
+        per = 120 if quick else 1200
         for pid in OTHER:
             if not _present(pid):
                 continue
@@ -106,7 +106,7 @@ class C20(PropertyCheck):
             except Exception:
                 continue
             rng.shuffle(sub)
-            for c in sub[:per]:
+            for c in _stratified(sub, per):
                 cases.append({"kind": "delegate", "pid": pid, "case": c})
         # sanitizer stream (C kernels rebuilt from /repo with clang ASan+UBSan)
         if os.environ.get("VERIF_NO_ASAN") != "1":
@@ -228,6 +228,38 @@ class C20(PropertyCheck):
 
     def key_of(self, case):
         return json.dumps(case, sort_keys=True, default=str)
+
+
+def _stratum(c):
+    """coarse class of a delegated case: its kind and the small discrete options it carries (which routine, which
+    way of presenting the inputs, which optional flags), so that rarely generated combinations are sampled too"""
+    if not isinstance(c, dict):
+        return "?"
+    parts = []
+    for k in sorted(c):
+        v = c[k]
+        if k in ("seed", "n", "V", "shape", "T", "K"):
+            continue
+        if isinstance(v, bool) or v is None or (isinstance(v, str) and len(v) <= 24):
+            parts.append(f"{k}={v}")
+        elif isinstance(v, int) and k in ("n",):
+            parts.append(f"{k}={min(v, 2)}")
+    return "|".join(parts)
+
+
+def _stratified(cases, per):
+    """`per` cases taken round-robin over the strata (in the shuffled order within each)"""
+    groups = {}
+    for c in cases:
+        groups.setdefault(_stratum(c), []).append(c)
+    out, k = [], 0
+    keys = sorted(groups)
+    while len(out) < per and any(groups.values()):
+        g = groups[keys[k % len(keys)]]
+        if g:
+            out.append(g.pop(0))
+        k += 1
+    return out
 
 
 CHECK = C20()
